@@ -70,7 +70,7 @@ class LineCheck:
             for fn in os.listdir(rdir):
                 if fn.startswith(prop + "-"): os.unlink(os.path.join(rdir, fn))
         lean_ok, lean_out = vlib.build_lean()
-        aud = vlib.audit(prop, self.modules) if lean_ok else dict(ok=False, obligations=0, discharged=0, theorems={}, problems=["lake build failed:\n" + lean_out[-1500:]])
+        aud = vlib.audit(prop, self.modules, tier) if lean_ok else dict(ok=False, obligations=0, discharged=0, theorems={}, problems=["lake build failed:\n" + lean_out[-1500:]])
         exe, err = vlib.build_harness(self.hname, self.hsrc)
         if exe is None:
             print("CHECK-ERROR property=%s: harness/%s does not build against /repo:\n%s" % (prop, self.hname, (err or "")[-2000:]))
@@ -154,7 +154,7 @@ class LineCheck:
                 samples.append(dict(command=c[:300], implementation=(i or "")[:300], model=(m or "")[:300]))
         cov = dict(obligations=aud["obligations"], discharged=aud["discharged"],
                    checker_cmd="cd /verif/lean && lake build SimVerif simcheck && lake env lean <generated Audit file with `#print axioms` for each %s_* theorem>" % prop,
-                   trusted_base=self.trusted, theorems=aud["theorems"], lean_problems=aud["problems"],
+                   trusted_base=self.trusted, theorems=aud["theorems"], lean_problems=aud["problems"], leanchecker_rechecked=aud.get("leanchecker", False),
                    evaluations=total, distinct_nontrivial=nontriv, rule=self.rule,
                    traces_validated_against_impl=total, command_kinds=kinds,
                    mismatches=len(mism), spec_failures=len(specf), crashes=len(crashes), corpus=len(corpus), samples=samples)
